@@ -167,7 +167,10 @@ def gen_mixed(rng, k, stream, gene, genomes, yaml_text=None, cn_list=None):
         newpos = [p + dd for p, _ in sites for dd in (1, 2, -1)]
         t2, kinds = perturb(rng, table, minq, minm, other_ops, newpos)
         c = {"stream": stream, "gene": gene, "genome": genome, "cn": cn, "table": table, "table2": t2, "indels": indels,
-             "profile": prof, "edits": kinds}
+             "profile": prof, "edits": kinds,
+             # the quality thresholds reach the profile AFTER the coverage object exists (what genotype() does for a debug archive:
+             # the pickled profile is loaded with the sample, then the user's --param values are applied to it)
+             "late_thresholds": rng.random() < 0.25}
         if yaml_text:
             c["db_yaml"] = yaml_text
         cases.append(c)
@@ -247,8 +250,14 @@ def run_stages(case, table_key):
     c = dict(case)
     c["table"] = case[table_key]
     g = c02.case_gene(c)
-    prof = c02.make_profile(c["profile"])
-    C = c02.make_coverage(c, g, prof)
+    if case.get("late_thresholds"):
+        p0 = dict(c["profile"], min_quality="0", min_mapq="0")
+        prof = c02.make_profile(p0)
+        C = c02.make_coverage(c, g, prof)
+        prof.update({"min_quality": c["profile"]["min_quality"], "min_mapq": c["profile"]["min_mapq"]})
+    else:
+        prof = c02.make_profile(c["profile"])
+        C = c02.make_coverage(c, g, prof)
     cns = CNSolution(g, 0, list(c["cn"]))
     sols = estimate_major(g, C, cns, "any")
     major = sorted((round(float(s.score), 9), tuple(sorted(a.major for a, k in s.solution.items() for _ in range(k))),
